@@ -1,7 +1,7 @@
 """C20 -- text rendering is total, side-effect free and structurally faithful."""
 import ast
 from ..common import interp, ours, calls_in, norm, reachable_functions, DF, VEC, LOD, GEO, is_self_call
-from ..model import AnalysisError, FunctionInfo, outermost
+from ..model import AnalysisError, FunctionInfo, outermost, body_nodes
 from ..signatures import accepts_keyword, forwarded
 from ..guards import partial_sites, discharge_reduction
 from ..facts import facts_at
@@ -90,6 +90,20 @@ def check(ctx):
                    f"{p} reaches the base {ov.name}" if fw else
                    f"override {ov.qualname} accepts {p!r} but never passes it on: the option is ignored for every value",
                    clause="all max_rows/max_width/truncate_width settings")
+    ROWLEVEL = {"head", "tail", "slice", "slice_off", "filter", "filter_out", "sample", "unique", "drop_na", "sort"}
+    for ov in [repo.fn(f"{GEO}.to_string")]:
+        s0_ = ov.params[0]
+        reb = [n for n in body_nodes(ov.node) if isinstance(n, ast.Assign) and any(norm(t) == s0_ for t in n.targets)]
+        bad = []
+        for n in reb:
+            v = n.value
+            meths = [c.func.attr for c in ast.walk(v) if isinstance(c, ast.Call) and isinstance(c.func, ast.Attribute)]
+            if any(m in ROWLEVEL for m in meths):
+                bad.append(n)
+        ctx.ob("FWD-override", ov, f"frame handed to the base rendering: {[norm(n.value)[:60] for n in reb] or s0_}", bad[0] if bad else ov.node, not bad,
+               "the override changes only the geometry column; row count and order reach the base rendering unchanged" if not bad else
+               f"{norm(bad[0])}: the override cuts rows before delegating, so the base rendering no longer knows the total row count "
+               f"('... N rows total' is never printed)", clause="when rows are cut the total row count is stated")
     ctx.count("dispatched entry-point calls x overrides", n_disp, 3)
 
     # ------------------------------------------------------------ EFF-render
